@@ -186,6 +186,12 @@ Qed.
 
 Definition count_backend (cols : list rcol) : nat := length (bidx cols).
 
+Lemma count_backend_RB n i t cols : count_backend (RB n i t :: cols) = S (count_backend cols).
+Proof. reflexivity. Qed.
+
+Lemma count_backend_RV k cols : count_backend (RV k :: cols) = count_backend cols.
+Proof. reflexivity. Qed.
+
 (** the row the insertion loop has to produce from the backend's cells [bc] *)
 Fixpoint weave (b : backend) (cols : list rcol) (bc : row) : row :=
   match cols with
@@ -201,13 +207,14 @@ Proof.
   induction cols as [|c cols IH]; intros pre bc Hlen.
   - reflexivity.
   - destruct c as [n i t|k]; cbn [vpos weave].
-    + destruct bc as [|x bc']; [cbn in Hlen; lia|].
+    + rewrite count_backend_RB in Hlen.
+      destruct bc as [|x bc']; [cbn [length] in Hlen; lia|].
       specialize (IH (pre ++ [x]) bc').
-      rewrite app_length, Nat.add_1_r, <- app_assoc in IH. cbn [app] in IH.
-      apply IH. unfold count_backend in *; cbn in Hlen |- *; lia.
+      rewrite app_length, Nat.add_1_r, <- !app_assoc in IH. cbn [app] in IH.
+      apply IH. cbn [length] in Hlen; lia.
     + cbn [splice]. rewrite insert_at_app.
       specialize (IH (pre ++ [vval b k]) bc).
-      rewrite app_length, Nat.add_1_r, <- app_assoc in IH. cbn [app] in IH.
+      rewrite app_length, Nat.add_1_r, <- !app_assoc in IH. cbn [app] in IH.
       apply IH. exact Hlen.
 Qed.
 
@@ -284,8 +291,8 @@ Lemma window_map {A B} (f : A -> B) q (l : list A) : window q (map f l) = map f 
 Proof.
   unfold window. rewrite map_length.
   destruct (Nat.ltb 0 (q_offset q)); [destruct (Nat.ltb (length l) (q_offset q))|].
-  - cbn [map length]. destruct (q_limit q) as [n|]; [|reflexivity]. destruct (Nat.ltb n 0); reflexivity.
-  - rewrite <- skipn_map, map_length. destruct (q_limit q) as [n|]; [|reflexivity].
+  - cbn [map length]. destruct (q_limit q) as [n|]; [|reflexivity]. destruct (Nat.ltb n 0); [rewrite !firstn_nil|]; reflexivity.
+  - rewrite skipn_map, map_length. destruct (q_limit q) as [n|]; [|reflexivity].
     destruct (Nat.ltb n _); [apply firstn_map|reflexivity].
   - rewrite map_length. destruct (q_limit q) as [n|]; [|reflexivity].
     destruct (Nat.ltb n _); [apply firstn_map|reflexivity].
@@ -334,7 +341,7 @@ Proof.
   assert (H1 : (if Nat.ltb 0 (q_offset q)
                 then (if Nat.ltb (length l) (q_offset q) then [] else skipn (q_offset q) l)
                 else l) = skipn (q_offset q) l).
-  { destruct (q_offset q) as [|o]; [reflexivity|]. cbn [Nat.ltb Nat.leb].
+  { destruct (q_offset q) as [|o]; [reflexivity|]. change (Nat.ltb 0 (S o)) with true. cbn iota.
     destruct (Nat.ltb (length l) (S o)) eqn:E; [|reflexivity].
     apply Nat.ltb_lt in E. symmetry. apply skipn_all2. lia. }
   rewrite H1. destruct (q_limit q) as [n|]; [|reflexivity]. cbn [limit_rows].
@@ -371,7 +378,8 @@ Qed.
 Section WithSort.
   Variable sort : (row -> row -> bool) -> list row -> list row.
   Hypothesis sort_perm : forall le l, Permutation (sort le l) l.
-  Hypothesis sort_sorted : forall le l, Sorted (fun a b => le a b = true) (sort le l).
+  Hypothesis sort_sorted :
+    forall keys l, Sorted (fun a b => row_le keys a b = true) (sort (row_le keys) l).
 
   (** the result as a list of origins: which backend row every result row is *)
   Lemma run_rows_origins sch q bs :
@@ -387,11 +395,11 @@ Section WithSort.
     { intros os. rewrite map_map. apply map_ext. intros o. apply strip_full. }
     destruct (is_nil (q_sort q)) eqn:Enil.
     - exists (origins q bs). rewrite Hstrip, window_map. split; [reflexivity|]. split; [apply Permutation_refl|].
-      destruct (q_sort q); [|discriminate]. apply Sorted_all. reflexivity.
+      unfold sort_cols. destruct (q_sort q); [|discriminate]. apply Sorted_all. reflexivity.
     - pose proof (sort_perm (row_le (sort_keys sch q)) (map f (origins q bs))) as Hp.
       destruct (Permutation_map_inv _ _ Hp) as [os [Heq Hpo]].
       exists os. rewrite Heq, Hstrip, window_map. split; [reflexivity|]. split; [apply Permutation_sym; exact Hpo|].
-      pose proof (sort_sorted (row_le (sort_keys sch q)) (map f (origins q bs))) as Hs.
+      pose proof (sort_sorted (sort_keys sch q) (map f (origins q bs))) as Hs.
       rewrite Heq in Hs. apply Sorted_map in Hs.
       eapply Sorted_weaken; [|exact Hs].
       intros o1 o2 H. cbn beta in H. unfold f, sort_keys in H.
@@ -471,33 +479,113 @@ Proof.
     exists b. repeat split; try assumption. destruct (b_up b); [discriminate|reflexivity].
 Qed.
 
+Lemma first_backend_names sch :
+  (exists c, In c (all_cols sch 0) /\ is_backend c = true) -> bnames (first_backend sch) <> [].
+Proof.
+  intros [c [Hc Hb]]. unfold first_backend.
+  assert (Hin : In c (filter is_backend (all_cols sch 0))) by (apply filter_In; split; assumption).
+  destruct (filter is_backend (all_cols sch 0)) as [|x l] eqn:E; [contradiction|].
+  assert (Hx : is_backend x = true).
+  { assert (H : In x (filter is_backend (all_cols sch 0))) by (rewrite E; left; reflexivity).
+    apply filter_In in H as [_ H]; exact H. }
+  destruct x as [n i t|k]; [|discriminate]. cbn. discriminate.
+Qed.
+
 Lemma thm_sub_request sch q :
   let sq := sub_request sch q in
   sq_filter sq = q_filter q /\ sq_stats sq = q_stats_txt q /\ sq_limit sq = q_limit q /\ sq_auth sq = q_auth q /\
   (forall n i t, In (RB n i t) (req_cols sch q) -> In n (sq_cols sq)) /\
   (forall n i t d, In (RB n i t, d) (sort_cols sch q) -> In n (sq_cols sq)) /\
-  (q_stats q = [] -> sq_cols sq = [] -> sch = [] \/ forall n c, In (n, c) sch -> exists k, c = SVirtual k).
+  (q_stats q = [] -> (exists c, In c (all_cols sch 0) /\ is_backend c = true) -> sq_cols sq <> []).
 Proof.
   cbn zeta. unfold sub_request; cbn [sq_filter sq_stats sq_limit sq_auth sq_cols].
   repeat split.
   - intros n i t H. apply (bnames_in n i t). apply full_cols_req_in; exact H.
   - intros n i t d H. apply (bnames_in n i t). exact (full_cols_sort_in sch q _ d H).
-  - intros Hst Hnil. right. unfold full_cols in Hnil. rewrite Hst in Hnil. cbn [is_nil] in Hnil.
-    rewrite andb_true_r in Hnil.
-    set (cols := fold_left add_extra _ _) in Hnil.
-    destruct (is_nil (bnames cols)) eqn:E; [|rewrite Hnil in E; discriminate].
-    unfold bnames in Hnil. rewrite flat_map_app in Hnil. apply app_eq_nil in Hnil as [_ Hfb].
-    (* no backend column in the schema at all *)
-    assert (Hall : forall off, filter is_backend (all_cols sch off) = [] ->
-                   forall n c, In (n, c) sch -> exists k, c = SVirtual k).
-    { clear. induction sch as [|[m [t|k]] sch IH]; intros off Hf n c Hin; [contradiction| |].
-      - cbn [all_cols filter is_backend] in Hf. discriminate.
-      - cbn [all_cols filter is_backend] in Hf. destruct Hin as [Hin|Hin].
-        + inversion Hin; subst. exists k; reflexivity.
-        + exact (IH off Hf n c Hin). }
-    apply (Hall 0). unfold first_backend in Hfb.
-    destruct (filter is_backend (all_cols sch 0)) as [|c l]; [reflexivity|].
-    cbn [firstn flat_map] in Hfb. destruct c; cbn in Hfb; [discriminate|].
-    assert (Hc : In (RV k) (filter is_backend (all_cols sch 0))) by admit_placeholder.
-    exfalso. apply filter_In in Hc as [_ Hc]. discriminate.
-Admitted_placeholder.
+  - intros Hst Hex. unfold full_cols. rewrite Hst. cbn [is_nil]. rewrite andb_true_r.
+    set (cols := fold_left add_extra _ _).
+    destruct (is_nil (bnames cols)) eqn:E.
+    + unfold bnames. rewrite flat_map_app. intros Hnil. apply app_eq_nil in Hnil as [_ Hfb].
+      exact (first_backend_names sch Hex Hfb).
+    + intros Hnil. rewrite Hnil in E. discriminate.
+Qed.
+
+(** *** the assumptions on [sort] are satisfiable: insertion sort *)
+
+Lemma str_ltb_total : forall a b, str_eqb a b = false -> str_ltb a b = false -> str_ltb b a = true.
+Proof.
+  induction a as [|x a IH]; intros [|y b] He Hl; cbn [str_eqb str_ltb] in *; try discriminate; try reflexivity.
+  destruct (N.ltb_spec x y) as [Hxy|Hxy]; [discriminate|].
+  destruct (N.eqb_spec x y) as [->|Hne].
+  - cbn [andb] in He. rewrite N.ltb_irrefl, N.eqb_refl. apply IH; assumption.
+  - assert (H : N.ltb y x = true) by (apply N.ltb_lt; lia). rewrite H. reflexivity.
+Qed.
+
+Lemma str_eqb_sym a b : str_eqb a b = str_eqb b a.
+Proof.
+  destruct (str_eqb_spec a b) as [->|Hne]; [symmetry; apply str_eqb_refl|].
+  symmetry. apply str_eqb_neq. congruence.
+Qed.
+
+Lemma cmp_cells_total n d x y :
+  match cmp_cells n d x y with
+  | None => cmp_cells n d y x = None
+  | Some false => cmp_cells n d y x = Some true
+  | Some true => True
+  end.
+Proof.
+  unfold cmp_cells. destruct n.
+  - rewrite (Z.eqb_sym (num_of y)). destruct (Z.eqb_spec (num_of x) (num_of y)) as [|Hne]; [reflexivity|].
+    destruct d.
+    + destruct (Z.ltb_spec (num_of y) (num_of x)); [exact I|]. f_equal. apply Z.ltb_lt. lia.
+    + destruct (Z.ltb_spec (num_of x) (num_of y)); [exact I|]. f_equal. apply Z.ltb_lt. lia.
+  - rewrite (str_eqb_sym (str_of y)). destruct (str_eqb (str_of x) (str_of y)) eqn:E; [reflexivity|].
+    destruct d.
+    + destruct (str_ltb (str_of y) (str_of x)) eqn:L; [exact I|]. f_equal.
+      apply str_ltb_total; [rewrite str_eqb_sym; exact E|exact L].
+    + destruct (str_ltb (str_of x) (str_of y)) eqn:L; [exact I|]. f_equal.
+      apply str_ltb_total; assumption.
+Qed.
+
+Lemma row_le_total keys a b : row_le keys a b = false -> row_le keys b a = true.
+Proof.
+  induction keys as [|k keys IH]; cbn [row_le]; [discriminate|].
+  pose proof (cmp_cells_total (k_num k) (k_desc k) (nth (k_idx k) a CBad) (nth (k_idx k) b CBad)) as H.
+  destruct (cmp_cells (k_num k) (k_desc k) (nth (k_idx k) a CBad) (nth (k_idx k) b CBad)) as [[|]|].
+  - discriminate.
+  - intros _. rewrite H. reflexivity.
+  - rewrite H. exact IH.
+Qed.
+
+Lemma insert_sorted_perm le x l : Permutation (insert_sorted le x l) (x :: l).
+Proof.
+  induction l as [|y l IH]; cbn [insert_sorted]; [apply Permutation_refl|].
+  destruct (le x y); [apply Permutation_refl|].
+  eapply Permutation_trans; [apply perm_skip; exact IH|apply perm_swap].
+Qed.
+
+Lemma isort_perm le l : Permutation (isort le l) l.
+Proof.
+  induction l as [|x l IH]; cbn [isort fold_right]; [apply Permutation_refl|].
+  eapply Permutation_trans; [apply insert_sorted_perm|apply perm_skip; exact IH].
+Qed.
+
+Lemma insert_sorted_sorted (le : row -> row -> bool) x l :
+  (forall a b, le a b = false -> le b a = true) ->
+  Sorted (fun a b => le a b = true) l -> Sorted (fun a b => le a b = true) (insert_sorted le x l).
+Proof.
+  intros Htot. induction 1 as [|y l Hs IH Hd]; cbn [insert_sorted].
+  - constructor; constructor.
+  - destruct (le x y) eqn:E.
+    + constructor; [constructor; assumption|constructor; exact E].
+    + constructor; [exact IH|].
+      destruct l as [|z l]; cbn [insert_sorted].
+      * constructor. apply Htot; exact E.
+      * destruct (le x z); constructor; [apply Htot; exact E|inversion Hd; assumption].
+Qed.
+
+Lemma isort_sorted keys l : Sorted (fun a b => row_le keys a b = true) (isort (row_le keys) l).
+Proof.
+  induction l as [|x l IH]; cbn [isort fold_right]; [constructor|].
+  apply insert_sorted_sorted; [apply row_le_total|exact IH].
+Qed.
